@@ -101,6 +101,23 @@ def _hmmsearch_output(spec: dict) -> list:
     return output
 
 
+class hmmsearch_from_spec:  # pylint: disable=invalid-name
+    """ while detection runs on a ruleset built by _build_ruleset: the output of hmmsearch is what the spec says """
+    def __init__(self, spec: dict) -> None:
+        self.spec = spec
+        self.original = None
+
+    def __enter__(self) -> None:
+        from antismash.common.hmm_rule_parser import cluster_prediction
+        self.original = cluster_prediction.run_hmmsearch
+        cluster_prediction.run_hmmsearch = lambda *_args, **_kwargs: _hmmsearch_output(self.spec)
+
+    def __exit__(self, *_exc) -> bool:
+        from antismash.common.hmm_rule_parser import cluster_prediction
+        cluster_prediction.run_hmmsearch = self.original
+        return False
+
+
 def _run(spec: dict, strip_superiors: bool):
     """ returns (protoclusters as dicts, anchors per rule) """
     from antismash.common.hmm_rule_parser import cluster_prediction
@@ -116,14 +133,11 @@ def _run(spec: dict, strip_superiors: bool):
         captured["type_hits"] = {key: set(val) for key, val in result[1].items()}
         return result
     cluster_prediction.apply_cluster_rules = recording
-    original_search = cluster_prediction.run_hmmsearch
-    cluster_prediction.run_hmmsearch = lambda *_args, **_kwargs: _hmmsearch_output(spec)
     try:
-        with code_under_test("detection_total"):
+        with hmmsearch_from_spec(spec), code_under_test("detection_total"):
             results = cluster_prediction.detect_protoclusters_and_signatures(record, ruleset)
     finally:
         cluster_prediction.apply_cluster_rules = original
-        cluster_prediction.run_hmmsearch = original_search
     protos = []
     for proto in results.protoclusters:
         protos.append({"product": proto.product, "core": ring.from_bio(proto.core_location),
